@@ -93,6 +93,33 @@ def events(sa, s, special=True):
     return out
 
 
+def events_towards(sa, targets):
+    """graded refinement: per target point, the interval(s) containing it - in one dimension, or in all dimensions at once.
+    Few events per state, so histories can go deep (levels lmax+5 and more), the pattern a peaked integrand produces."""
+    iv = intervals(sa)
+    out, seen = [], set()
+    for t in targets:
+        per_dim = []
+        for d in range(sa.dim):
+            cand = [x for x in iv if x[0] == d and x[1] <= t[d] <= x[2]]
+            if cand:
+                per_dim.append(list(cand[0]))
+        choices = [[x] for x in per_dim] + ([per_dim] if len(per_dim) > 1 else [])
+        for ev in choices:
+            k = tuple(tuple(x) for x in ev)
+            if k not in seen:
+                seen.add(k)
+                out.append(ev)
+    return out
+
+
+def events_for(sa, config):
+    """event menu selected by the configuration: all subsets up to size s (default) or graded refinement towards target points"""
+    if config.get("towards"):
+        return events_towards(sa, config["towards"])
+    return events(sa, config.get("s", 1))
+
+
 class Run:
     pass
 
